@@ -130,6 +130,24 @@ func execC12(c *Case) {
 				all = append(all, rr)
 			}
 		}
+		// for toPairAlign: reads whose reference rows are equally wide but gapped at different places, interleaved, and a
+		// window bound between the two insertion sites - whatever a worker keeps between pairs then depends on the
+		// order in which pairs reach it
+		ws, we := -1, -1
+		if L := atoi(sv.Get("reflen")); (kind == "topa-dir" || kind == "topa-stdout") && L >= 12 && r.Bool() {
+			refU := strings.ToUpper(sv.Get("ref"))
+			a, b := r.Range(1, L/2-1), r.Range(L/2+1, L-1)
+			for k := 0; k < 30; k++ {
+				at := []int{a, b}[k%2]
+				all = append(all, samRec{name: fmt.Sprintf("tw%02d", k), flag: 0, pos: 1, cigar: fmt.Sprintf("%dM2I%dM", at, L-at), seq: refU[:at] + "GG" + refU[at:]})
+			}
+			mid := r.Range(a+1, b)
+			if r.Bool() {
+				ws = mid
+			} else {
+				we = mid
+			}
+		}
 		txt := samText(sv.Get("rname"), atoi(sv.Get("reflen")), all, true)
 		refTxt := renderFasta([]string{sv.Get("rname")}, []string{sv.Get("ref")}, lay)
 		switch kind {
@@ -147,7 +165,7 @@ func execC12(c *Case) {
 				dir := filepath.Join(opts.tmp, fmt.Sprintf("c12-%d-%d", os.Getpid(), tmpCounter))
 				defer os.RemoveAll(dir)
 				return safeRun(60*time.Second, func() (string, error) {
-					err := sam.ToPairAlign(strings.NewReader(txt), strings.NewReader(refTxt), dir, -1, -1, -1, false, false, cfg.threads)
+					err := sam.ToPairAlign(strings.NewReader(txt), strings.NewReader(refTxt), dir, -1, ws, we, false, false, cfg.threads)
 					if err != nil {
 						return "", err
 					}
@@ -171,7 +189,14 @@ func execC12(c *Case) {
 				os.Setenv("GOMAXPROCS", fmt.Sprint(cfg.gomaxprocs))
 				defer os.Unsetenv("VERIF_JITTER_SEED")
 				defer os.Unsetenv("GOMAXPROCS")
-				o, se, code, to := runCLI(60*time.Second, "", "sam", "toPairAlign", "-s", filepath.Join(dir, "a.sam"), "-r", filepath.Join(dir, "r.fa"), "-o", "stdout", "-t", fmt.Sprint(cfg.threads))
+				args := []string{"sam", "toPairAlign", "-s", filepath.Join(dir, "a.sam"), "-r", filepath.Join(dir, "r.fa"), "-o", "stdout", "-t", fmt.Sprint(cfg.threads)}
+				if ws > 0 {
+					args = append(args, "--start", fmt.Sprint(ws))
+				}
+				if we > 0 {
+					args = append(args, "--end", fmt.Sprint(we))
+				}
+				o, se, code, to := runCLI(60*time.Second, "", args...)
 				if to {
 					return result{status: "timeout"}
 				}
